@@ -30,12 +30,9 @@ def run_entry(prog, unit_path, fname, setup, port=None, summaries=None, tracked=
     """Interpret function `fname` of unit `unit_path` from the abstract state built by setup(I, st) -> [Val args].
     Returns (engine, [(state, return Val)])."""
     ix = prog.unit(unit_path)
-    fn = ix.functions.get(fname)
+    ix, fn = prog.resolve(ix, fname)
     if fn is None:
-        ix2, fn = prog.resolve(ix, fname)
-        if fn is None:
-            raise AnalysisBroken('anchor function %s not found in %s' % (fname, unit_path))
-        ix = ix2
+        raise AnalysisBroken('anchor function %s not found in %s' % (fname, unit_path))
     I = engine or Engine(prog, port=port, summaries=summaries, entry_name=name or fname)
     I.entry_name = name or fname
     I.ix, I.fn = ix, '<entry>'
